@@ -41,12 +41,6 @@ Definition node_eqb (a b : node) : bool :=
   | _, _ => false
   end.
 
-Definition node_eqb_noweight (a b : node) : bool :=
-  match a, b with
-  | SplitterN x, SplitterN y => list_eqb (fun e f => nid_eqb (snd e) (snd f)) x y
-  | _, _ => node_eqb a b
-  end.
-
 Definition nodes_sub (neq : node -> node -> bool) (a b : nodes) : bool :=
   forallb (fun p => match assoc nid_eqb (fst p) b with Some nd => neq (snd p) nd | None => false end) a.
 
@@ -65,33 +59,8 @@ Definition out_eqb (neq : node -> node -> bool) (r : cres graph) (o : out) : boo
   | _, _ => false
   end.
 
-(* the orders of the first two flatten passes over the splitter nodes (three splitters at most
-   matter for a three-deep chain; later passes change nothing) *)
-Fixpoint insert_all {A} (x : A) (l : list A) : list (list A) :=
-  match l with
-  | [] => [[x]]
-  | y :: l' => (x :: l) :: map (cons y) (insert_all x l')
-  end.
-Fixpoint perms {A} (l : list A) : list (list A) :=
-  match l with [] => [[]] | x :: l' => flat_map (insert_all x) (perms l') end.
-
-Definition splitter_keys (es : list entry) (cx : ctx) (svc : string) : list nid :=
-  match assemble es cx svc with
-  | Ok (st, _, _) => map (fun p => NSplitter (fst p)) (s_splitters st)
-  | Err _ => []
-  end.
-
-Definition order_family (ks : list nid) : list (list (list nid)) :=
-  let ps := perms ks in flat_map (fun o1 => map (fun o2 => [o1; o2]) ps) ps.
-
 Definition check_c (c : ccase) : bool :=
-  let ks := splitter_keys (cc_entries c) (cc_ctx c) (cc_svc c) in
-  let run := compile (cc_entries c) (cc_ctx c) (cc_svc c) in
-  match ks with
-  | [] | [_] | [_; _] => forallb (out_eqb node_eqb (run [])) (cc_outs c)
-  | [_; _; _] => forallb (fun o => existsb (fun ords => out_eqb node_eqb (run ords) o) (order_family ks)) (cc_outs c)
-  | _ => forallb (out_eqb node_eqb_noweight (run [])) (cc_outs c)
-  end.
+  forallb (out_eqb node_eqb (compile (cc_entries c) (cc_ctx c) (cc_svc c) [])) (cc_outs c).
 
 Fixpoint run_store (store : list entry) (tags : list ((ekind * string) * N)) (i : N)
          (ops : list (wop * bool * list ((ekind * string) * N))) : bool :=
